@@ -15,6 +15,10 @@ import (
 // with a successful post?
 func segSucceeded(seg []Ev) bool {
 	last := seg[len(seg)-1]
+	if seg[0].Batch {
+		// batch node: item outcomes go to the slots; the node run succeeded iff post did
+		return last.Phase == "post" && last.RetErr == nil && seg[0].RetErr == nil
+	}
 	if last.Phase != "post" || last.RetErr != nil || len(seg) < 3 {
 		return false
 	}
@@ -122,7 +126,7 @@ func c04Body(sc *WF) Verdict {
 		cl = append(cl, c)
 	}
 	sortStrings(cl)
-	return ok(nontrivial, cl...)
+	return ok(nontrivial, append(cl, sc.batchClass()...)...)
 }
 
 func checkC04(t *testing.T, sc WF) Verdict {
@@ -140,7 +144,7 @@ type C04Enum struct {
 }
 
 func genC04Enum(rt *rapid.T) C04Enum {
-	g := wfGen{MaxLeaves: 5, MaxFlows: 4, Actions: []string{"a", "b", "", "default"}, MaxN: 3, MaxVisits: 2, FuelMax: 8}
+	g := wfGen{MaxLeaves: 5, MaxFlows: 4, Actions: []string{"a", "b", "", "default"}, MaxN: 3, MaxVisits: 2, FuelMax: 8, PBatch: 120}
 	w := g.gen(rt)
 	// fallback outcomes vary (ok / err / passthrough) so an injected exec failure is sometimes absorbed
 	return C04Enum{Base: w}
@@ -151,6 +155,9 @@ func c04Positions(base *WF) []Injection {
 	mr := newWfModel(base).run()
 	var out []Injection
 	for _, e := range mr.Trace {
+		if e.Phase == "exec" && base.Nodes[e.Leaf].Leaf.Kind == KBatch {
+			continue // a failing batch item goes to its slot; whether it also surfaces in Run's error is left open
+		}
 		for _, flavor := range errFlavors {
 			out = append(out, Injection{Leaf: e.Leaf, Visit: e.Visit, Phase: e.Phase, Attempt: e.Attempt, Err: flavor})
 		}
@@ -299,7 +306,7 @@ func TestC04(t *testing.T) {
 		})
 	})
 	r.note("fault-enum: every (leaf visit x phase x attempt) event of each failure-free reference run injected in 4 error flavours, plus 'all attempts fail': %d injected runs in this shard", positions)
-	g := wfGen{MaxLeaves: 5, MaxFlows: 4, Actions: []string{"a", "b", ""}, PErr: 60, PExecErr: 400, MaxN: 4, Waits: true, MaxVisits: 3, FuelMax: 10, MaxRuns: 2}
+	g := wfGen{MaxLeaves: 5, MaxFlows: 4, Actions: []string{"a", "b", ""}, PErr: 60, PExecErr: 400, MaxN: 4, Waits: true, MaxVisits: 3, FuelMax: 10, MaxRuns: 2, PBatch: 120}
 	rapidPart(r, "rand-multi", r.pick(3000, 120000), g.gen, checkC04)
 	rapidPart(r, "batch-prep-post", r.pick(2000, 30000), genC04Batch, checkC04Batch)
 }
